@@ -56,7 +56,12 @@ extern "C" __attribute__((noinline)) void h_run(const uint8_t* in, uint32_t opts
     for (int i = 0; i < LEN; i++) b[i] = (char)in[i];
     b[LEN] = 0;
     hv::reset();
-    hv::rec s; s.names = %s::p.term_names; s.nnames = %d;
+#ifdef HASHLOG
+    hv::hrec s;
+#else
+    hv::rec s;
+#endif
+    s.names = %s::p.term_names; s.nnames = %d;
     parse_options o;
 #ifdef OPT_SYMBOLIC
     o.set_skip_whitespace((opts & 1u) != 0).set_skip_newline((opts & 2u) != 0).set_verbose((opts & 4u) != 0);
